@@ -297,6 +297,11 @@ func NewResolver(cfg *config.Config) *Resolver {
 		r.rootKeys = append(r.rootKeys, rr)
 	}
 	r.configuredRootKeys = slices.Clone(r.rootKeys)
+	// Configuration is not the last word on a key whose revocation an
+	// earlier process accepted: the resolver serves, and validates its
+	// priming response, before the first AutoTA run gets to apply the
+	// revocation store.
+	r.rootKeys = startupRootKeys(cfg.Directory, r.rootKeys)
 
 	// Initialize TCP connection pool if enabled
 	if cfg.TCPKeepalive {
